@@ -462,6 +462,15 @@ def run(chk):
                 nodes += chk.rng.choice(s_states(n)[:3] * 3 + [[]]) + chk.rng.choice(d_states(n, names[(k + 1) % len(names)]))
             nodes += chk.rng.choice(d_states(ctl, b"a.tar")[:6])
             lc.append((kind, names, nodes + OUT))
+    # (found by the thorough tier at the very end of the session) destination links that lead back THROUGH the source's own links
+    # to the file the source link stands for: with os.Stat the copy took them for "the same file", copied nothing, and the move
+    # then removed the source links and left the chain dangling
+    for kind in (b"dsc", b"changes"):
+        lc.append((kind, [b"a.tar", b"b.tar"], [b"S", b"a.tar", b"L", b"O/y", b"D", b"a.tar", b"L", b"D/b.tar", b"S", b"b.tar", b"L", b"O/y",
+                                                b"D", b"b.tar", b"L", b"S/b.tar"] + OUT))
+        lc.append((kind, [b"a.tar"], [b"S", b"a.tar", b"L", b"O/y", b"D", b"a.tar", b"L", b"O/y"] + OUT))
+        lc.append((kind, [b"a.tar"], [b"S", b"a.tar", b"L", b"D/a.tar", b"D", b"a.tar", b"F", b"the only copy"] + OUT))
+        lc.append((kind, [b"a.tar"], [b"S", b"a.tar", b"F", b"bytes", b"D", b"a.tar", b"L", b"D/hop-x", b"D", b"hop-x", b"L", b"S/a.tar"] + OUT))
     for lop in ("copylinks", "movelinks"):
         lic = [(lop, [kind, len(names)] + names + nodes) for kind, names, nodes in lc]
         limpl = chk.run_impl(lic)
@@ -503,9 +512,7 @@ def run(chk):
                     # a plain file arrives as it was; a symbolic link arrives as the bytes it stood for (it is not moved as a link)
                     was = before.get(b"S/" + n)
                     want = ("F", read(before, b"S/" + n)) if was and was[0] == "L" else was
-                    same = was and was[0] == "L" and read(before, b"D/" + n) is not None and before.get(b"D/" + n, ("", b""))[0] == "L" \
-                        and before[b"D/" + n][1] == b"S/" + n
-                    if (after.get(b"D/" + n) != want and not same) or (b"S/" + n) in after:
+                    if after.get(b"D/" + n) != want or (b"S/" + n) in after:
                         why = why or "after a successful move %s is not in the destination as the file it was at its source (or is still at its source)" % n.decode()
             else:
                 if after.get(b"D/" + ctl) != before.get(b"D/" + ctl) and (b"D/" + ctl) in after:
